@@ -193,6 +193,9 @@ func (conn *ConnectionSet) ContainedIn(other *ConnectionSet) bool {
 
 // AddConnection updates current ConnectionSet object with new allowed connection
 func (conn *ConnectionSet) AddConnection(protocol v1.Protocol, ports *PortSet) {
+	if conn.AllowAll { // nothing can be added to all the connections (an entry next to the flag breaks Equal and Intersection)
+		return
+	}
 	conn.addConnection(protocol, ports)
 	conn.checkIfAllConnections()
 }
